@@ -106,8 +106,12 @@ func (e *Encoder) callCommon(instr ssa.Instruction, cm *ssa.CallCommon, res ssa.
 		e.nameValue("$call", v, pc)
 		return v
 	}
-	ssn := e.siteName("call", callee.Name())
-	e.siteAsserts("call "+callee.Name(), ssn, st, pc, args)
+	cname := callee.Name()
+	if o := callee.Origin(); o != nil {
+		cname = o.Name() // an instantiation resize[T1] is addressed by the generic function's name
+	}
+	ssn := e.siteName("call", cname)
+	e.siteAsserts("call "+cname, ssn, st, pc, args)
 	if mc, ok := cm.Value.(*ssa.MakeClosure); ok {
 		if fc := e.prog.contractFor(callee); fc != nil {
 			var bind []Val
